@@ -31,7 +31,8 @@ MANIFEST = {
             "over all pairs incl. nil, total, node dump checked for sorted children, accumulation = subtree sum, "
             "reachability, partition, separator nesting; the real node dump is also compared with the model's store "
             "(fidelity). Random histories (m in 2..32, keys of length 0-3 with shared prefixes, negative/zero values, "
-            "with and without Remove, NewTree re-opening) are recorded from the real tree and judged line by line "
+            "with and without Remove, NewTree re-opening; fan-outs 255 / 254; 'scaled' histories whose values are small multiples k of a "
+            "large unit - 2^61, 10^18, 2^64+1 - so that sums cross 2^63 and 2^64 while the log carries k) are recorded from the real tree and judged line by line "
             "by TLC. Any deviation (answer, panic, leaf set, order, node structure) is a violation.",
     "note": TRUST + " SubsetAccumulation with start > end is outside the statement (no answer demanded).",
 }
